@@ -51,10 +51,10 @@ fn status(rpm: u32, nib: i64, out: &mut Vec<i64>) {
 fn letter(l: u64, rng: &mut Rng, out: &mut Vec<i64>) {
     match l {
         0 => out.push(0),
-        1 => status(0, 15, out), 2 => status(300, 15, out), 3 => status(800, 15, out), 4 => status(3000, 15, out),
+        1 => status(*rng.pick(&[0u32, 0, 0xffff]), 15, out) /* stopped, or nothing available at all (ECU powering down) */, 2 => status(300, 15, out), 3 => status(800, 15, out), 4 => status(3000, 15, out),
         5 => status(*rng.pick(&[0u32, 300, 900]), *rng.pick(&[1i64, 2]), out),        // starter active
         6 => status(*rng.pick(&[0u32, 1000, 0xffff]), 3, out),                          // start finished
-        7 => status(*rng.pick(&[0u32, 700, 1500]), *rng.pick(&[0i64, 4, 8, 12, 9, 13]), out),
+        7 => status(*rng.pick(&[0u32, 700, 1500, 0xffff]), *rng.pick(&[0i64, 4, 8, 12, 9, 13, 14, 10]), out),
         8 => { let rpm = *rng.pick(&[0i64, 500, 1500, 5000]); let st = *rng.pick(&[0i64, 1, 2, 16]); out.extend([2, rng.byte() as i64, rng.byte() as i64, rpm, st]); }
         9 => out.extend([2, 0, 0, 0, *rng.pick(&[0i64, 16])]),                         // shutdown command
         10 => out.extend([2, 0, 0, rng.range(1, 3000), 16]),
